@@ -483,6 +483,35 @@ func (rn *runner) reboot(fsm *simdisk.FSModel, img map[string][]byte, mem *memor
 	if v == nil {
 		return nil
 	}
+	// Classified by the IMAGE, not by the error text: if a power-loss image holds,
+	// for any freezer table .meta file, a content that is none of the contents the
+	// file can have when each unsynced mutation is applied completely or not at
+	// all, the metadata file is torn (the freezer's recorded C24 finding). A torn
+	// extending rewrite may still decode, to garbage (flush offset / virtual tail),
+	// and then surfaces as a missing data file, a negative truncate, hidden items...
+	if draw > 0 {
+		var paths []string
+		for p := range img {
+			if strings.HasSuffix(p, ".meta") && strings.Contains(p, "/ancient/") {
+				paths = append(paths, p)
+			}
+		}
+		sort.Strings(paths)
+		for _, p := range paths {
+			whole := false
+			for _, w := range fsm.WholeWriteStates(p) {
+				if bytes.Equal(w, img[p]) {
+					whole = true
+					break
+				}
+			}
+			if !whole {
+				v.Msg += fmt.Sprintf("\n(torn freezer metadata in the image: %s holds %x, which is none of its whole-write states; symptom above, cause = the freezer's torn .meta rewrite)", trimRoot(p, fsm.Root), img[p])
+				v.Key = "reboot-open-crit:freezer-torn-metadata"
+				return v
+			}
+		}
+	}
 	// Stale journal: the last clean Journal() before the cut is still on disk, and
 	// since then a Recover rolled the disk layer back below the journaled disk
 	// layer id without changing the persisted root (rollback inside the write
